@@ -4,6 +4,7 @@ C19 — the Python front end dispatches to the variant its arguments name.
 multitensor.cpp) are regenerated from the sources by the translator on every run; the
 configuration space is finite (16 elements), so `decide` over it is the exhaustive proof.
 -/
+import MT.Generated.UtilsCode
 import MT.Generated.Dispatch
 
 namespace MTProps.C19
@@ -102,5 +103,16 @@ theorem pyx_v_none_unless_directed :
     Gen.pyxVNoneUnlessDirected = true ∧ Gen.pyxVStartsEmpty = true := by decide
 
 example : cfgOk ⟨false, true, true, true⟩ = true := by decide
+
+/-- everything `run` of multitensor.pyx does before the sixteen dispatch blocks (reading the adjacency file, the
+flat weight vector `adj_data[:, 2:].astype(dtype).ravel()`, the sizes, `c_u` N x K and `c_v` 0 x 0, the start
+affinity from the file or zeros, the seed, the generator), as it stands in the source -/
+theorem pyx_prologue_documented :
+    Gen.pyxRunPrologue = "defrun(adjacency_filename,nof_groups,directed=True,assortative=False,nof_realizations=1,max_nof_iterations=500,nof_convergences=10,init_affinity_filename=None,weigths_dtype=float,seed=None):adj_data=numpy.loadtxt(adjacency_filename)edges_start=adj_data[:,0].astype(int)edges_end=adj_data[:,1].astype(int)edges_weights=adj_data[:,2:].astype(weigths_dtype).ravel()nof_edges=edges_start.sizenof_layers=edges_weights.size//nof_edgescdefsize_tnof_vertices=get_num_vertices[vertex_t](<constvector[vertex_t]&>edges_start,<constvector[vertex_t]&>edges_end)cdefMatrix[numpy.float_t]c_u=Matrix[numpy.float_t](nof_vertices,nof_groups)cdefMatrix[numpy.float_t]c_v=Matrix[numpy.float_t](0,0)cdefvector[numpy.float_t]c_affinityifinit_affinity_filename:w_data=numpy.loadtxt(init_affinity_filename)ifassortative:init_affinity=w_data[:,1:].ravel()else:init_affinity=(numpy.diag(l)forlinw_data[:,1:])init_affinity=numpy.concatenate([l.ravel()forlininit_affinity])c_affinity=<vector[numpy.float_t]>init_affinityelse:ifassortative:affinity_size=nof_groups*nof_layerselse:affinity_size=nof_groups*nof_groups*nof_layersc_affinity=vector[numpy.float_t](<size_t>affinity_size)cdefvector[vertex_t]labels=vector[vertex_t](nof_vertices)report=ReportWrapper()seed=seedifseedisnotNoneelsetime(NULL)cdefRandomGenerator[mt19937,uniform_real_distribution]*rng=\\newRandomGenerator[mt19937,uniform_real_distribution](seed)" := rfl
+
+/-- everything `run` does after them (`v = None` unless directed, rows labelled with `labels[i]`, the affinity
+reshaped layer by layer) -/
+theorem pyx_epilogue_documented :
+    Gen.pyxRunEpilogue = "finally:delrngu=numpy.array([[labels[i]]+[c_u(i,j)forjinrange(c_u.get_ncols())]foriinrange(c_u.get_nrows())])v=Noneifdirected:v=numpy.array([[labels[i]]+[c_v(i,j)forjinrange(c_v.get_ncols())]foriinrange(c_v.get_nrows())])affinity_ravel=numpy.array(c_affinity)num_vals=affinity_ravel.size//nof_layersaffinity=[]forlinrange(nof_layers):begin=l*num_valsend=(l+1)*num_valsw_l=affinity_ravel[begin:end].reshape((-1,nof_groups)).Tifassortative:w_l=w_l.ravel()affinity.append(w_l)returnu,v,affinity,report" := rfl
 
 end MTProps.C19
